@@ -715,6 +715,7 @@ err_t rngCreate(read_i source, void* source_state)
 		return ERR_FILE_CREATE;
 	// заблокировать мьютекс
 	mtMtxLock(_mtx);
+	VERIF_POINT(VP_RNG_LOCKED, "rngCreate");
 	// состояние уже создано?
 	if (_ctr)
 	{
@@ -723,6 +724,7 @@ err_t rngCreate(read_i source, void* source_state)
 			brngCTRStepR(_state->block, 32, _state->alg_state);
 		// увеличить счетчик обращений и завершить
 		++_ctr;
+		VERIF_POINT(VP_RNG_UNLOCKING, "rngCreate");
 		mtMtxUnlock(_mtx);
 		return ERR_OK;
 	}
@@ -730,6 +732,7 @@ err_t rngCreate(read_i source, void* source_state)
 	_state = (rng_state_st*)blobCreate(rngCreate_keep());
 	if (!_state)
 	{
+		VERIF_POINT(VP_RNG_UNLOCKING, "rngCreate");
 		mtMtxUnlock(_mtx);
 		return ERR_OUTOFMEMORY;
 	}
@@ -750,6 +753,7 @@ err_t rngCreate(read_i source, void* source_state)
 	if (count < 64)
 	{
 		blobClose(_state), _state = 0;
+		VERIF_POINT(VP_RNG_UNLOCKING, "rngCreate");
 		mtMtxUnlock(_mtx);
 		return ERR_NOT_ENOUGH_ENTROPY;
 	}
@@ -759,6 +763,7 @@ err_t rngCreate(read_i source, void* source_state)
 	memWipe(_state->block, 32);
 	// завершить
 	_ctr = 1;
+	VERIF_POINT(VP_RNG_UNLOCKING, "rngCreate");
 	mtMtxUnlock(_mtx);
 	return ERR_OK;
 }
@@ -774,7 +779,9 @@ bool_t rngIsValid()
 	if (!_inited)
 		return FALSE;
 	mtMtxLock(_mtx);
+	VERIF_POINT(VP_RNG_LOCKED, "rngIsValid");
 	b = rngIsValid_internal();
+	VERIF_POINT(VP_RNG_UNLOCKING, "rngIsValid");
 	mtMtxUnlock(_mtx);
 	return b;
 }
@@ -783,9 +790,11 @@ void rngClose()
 {
 	ASSERT(_inited);
 	mtMtxLock(_mtx);
+	VERIF_POINT(VP_RNG_LOCKED, "rngClose");
 	ASSERT(rngIsValid_internal());
 	if (--_ctr == 0)
 		blobClose(_state), _state = 0;
+	VERIF_POINT(VP_RNG_UNLOCKING, "rngClose");
 	mtMtxUnlock(_mtx);
 }
 
@@ -809,8 +818,10 @@ void rngStepR2(void* buf, size_t count, void* state)
 {
 	ASSERT(_inited);
 	mtMtxLock(_mtx);
+	VERIF_POINT(VP_RNG_LOCKED, "rngStepR2");
 	ASSERT(rngIsValid_internal());
 	brngCTRStepR(buf, count, _state->alg_state);
+	VERIF_POINT(VP_RNG_UNLOCKING, "rngStepR2");
 	mtMtxUnlock(_mtx);
 }
 
@@ -821,6 +832,7 @@ void rngStepR(void* buf, size_t count, void* state)
 	// блокировать мьютекс
 	ASSERT(_inited);
 	mtMtxLock(_mtx);
+	VERIF_POINT(VP_RNG_LOCKED, "rngStepR");
 	// опросить источники
 	read = pos = 0;
 	while (read < count && pos < COUNT_OF(sources))
@@ -835,6 +847,7 @@ void rngStepR(void* buf, size_t count, void* state)
 	ASSERT(rngIsValid_internal());
 	brngCTRStepR(buf, count, _state->alg_state);
 	// снять блокировку
+	VERIF_POINT(VP_RNG_UNLOCKING, "rngStepR");
 	mtMtxUnlock(_mtx);
 }
 
@@ -843,6 +856,7 @@ void rngRekey()
 	// блокировать мьютекс
 	ASSERT(_inited);
 	mtMtxLock(_mtx);
+	VERIF_POINT(VP_RNG_LOCKED, "rngRekey");
 	// сгенерировать новый ключ
 	ASSERT(rngIsValid_internal());
 	brngCTRStepR(_state->block, 32, _state->alg_state);
@@ -850,5 +864,26 @@ void rngRekey()
 	brngCTRStart(_state->alg_state, _state->block, 0);
 	memWipe(_state->block, 32);
 	// снять блокировку
+	VERIF_POINT(VP_RNG_UNLOCKING, "rngRekey");
 	mtMtxUnlock(_mtx);
 }
+
+#ifdef BEE2_VERIF
+/*
+*******************************************************************************
+Verification: projection of the file-scope state (see rng.h)
+*******************************************************************************
+*/
+
+void rngVerifPeek(size_t* ctr, bool_t* valid, size_t* once, bool_t* inited)
+{
+	if (ctr)
+		*ctr = _ctr;
+	if (valid)
+		*valid = _state != 0;
+	if (once)
+		*once = mtAtomicCmpSwap(&_once, 0, 0);
+	if (inited)
+		*inited = _inited;
+}
+#endif /* BEE2_VERIF */
